@@ -324,6 +324,28 @@ def to_layout(X, layout, blk=1):
     raise MachineryError("layout %s" % layout)
 
 
+_SHARED_CG = {}
+
+
+def shared_cg(kw):
+    """Default-constructed CG solvers are reused for the whole run (one instance per keyword set), and their first
+    use is a 1x1 system: the solver object must not carry anything from one solve to the next (e.g. an iteration
+    budget frozen by the first call)."""
+    import torch
+    pp = pypose()
+    if "maxiter" in kw:
+        return pp.optim.solver.CG(**kw)
+    key = tuple(sorted(kw.items()))
+    if key not in _SHARED_CG:
+        c = pp.optim.solver.CG(**kw)
+        try:
+            c(torch.tensor([[2.0]], dtype=torch.float64), torch.tensor([[1.0]], dtype=torch.float64))
+        except Exception:
+            pass
+        _SHARED_CG[key] = c
+    return _SHARED_CG[key]
+
+
 def ev_cg(spec):
     """One real CG(maxiter, tol)(A, b, x0, M) call on a small integer SPD system."""
     import torch
@@ -347,7 +369,7 @@ def ev_cg(spec):
     ev = {"act": "cg", "A": A, "b": b, "x0": x0, "M": M, "iters": spec["iters"], "layout": spec["layout"],
           "maxiter": spec["iters"] + 1 if probe else 0, "tol_e9": int(tol * 1e9), "rel_e9": 0, "zero": False}
     try:
-        x = pp.optim.solver.CG(**kw)(At, bt, xt, Mt)
+        x = shared_cg(kw)(At, bt, xt, Mt)
     except Exception as ex:
         ev["out"] = "raise"
         ev["msg"] = repr(ex)[:160]
@@ -487,7 +509,7 @@ def ev_big(spec):
         sb = 2.0 ** spec.get("bexp", 0)
         ev.update({"bzero": kind == "b0", "tol_e9": int(tol * 1e9)})
         try:
-            x = pp.optim.solver.CG(**({"tol": tol} if "tol" in spec else {}))(
+            x = shared_cg({"tol": tol} if "tol" in spec else {})(
                 At, torch.tensor(b, dtype=d).unsqueeze(-1) * sb,
                 None if x0 is None else torch.tensor(x0, dtype=d).unsqueeze(-1) * sb, Mt)
         except Exception as ex:
@@ -530,6 +552,35 @@ def ev_big(spec):
             err = max(measure_bres(mats[k], rhs[k], xs[k], eps) for k in range(nb))
             ev.update({"measure": "bres", "amp": 0})
         ev.update({"err": min(CAP, err), "elog": elog(err)})
+        return ev
+    if kind == "tallscaled":
+        # consistent tall systems with badly scaled columns: A = A0 diag(2^e), b = A0 x0 (integers), x* = x0 / 2^e.
+        # Column scaling by powers of two is exact; cond(A) up to ~1e8 (f64) / ~1e3 (f32).  The forward error of a
+        # least-squares solver on a consistent system grows with cond, not cond^2; a solver that forms the normal
+        # equations (and truncates on sigma^2) loses the weakly scaled unknowns altogether.
+        m, kmax = spec["m"], spec["kexp"]
+        while True:
+            A0 = [[rng.randint(-3, 3) for _ in range(n)] for _ in range(m)]
+            if solve_int(matmul_int(transpose(A0), A0), [1] * n) is not None:
+                break
+        x0 = [rng.randint(-3, 3) or 1 for _ in range(n)]
+        b = matvec(A0, x0)
+        ex = [rng.randint(-kmax, kmax) for _ in range(n)]
+        ex[0], ex[-1] = kmax, -kmax
+        sc = torch.tensor([2.0 ** e for e in ex], dtype=d)
+        At = (torch.tensor(A0, dtype=d) * sc).reshape([1, m, n])
+        bt = torch.tensor(b, dtype=d).reshape([1, m, 1])
+        sol = {"pinv": pp.optim.solver.PINV(), "lstsq": pp.optim.solver.LSTSQ()}[solver]
+        try:
+            x = sol(At, bt)
+        except Exception as ex_:
+            ev.update({"out": "raise", "msg": repr(ex_)[:160]})
+            return ev
+        ev["out"] = "value"
+        z = (x.reshape(n) * sc).tolist()            # the solution in the scaled unknowns
+        kl = klog2(torch, At[0].double())
+        err = measure_ferr(z, [Fr(v) for v in x0], eps)
+        ev.update({"measure": "ferr", "amp": kl, "err": min(CAP, err), "elog": elog(err)})
         return ev
     # least squares: tall / wide / rank-deficient integer matrices
     m = spec["m"]
@@ -615,6 +666,11 @@ def big_part(ctx, traces):
             m_tall, m_wide = min(40, n + rng.randint(1, 9)), max(1, n - rng.randint(1, 3))
             specs.append({"fam": "big", "solver": solver, "kind": "tall", "n": n, "m": m_tall, "dtype": "float64", "batch": rng.choice(batches)})
             specs.append({"fam": "big", "solver": solver, "kind": "wide", "n": n, "m": m_wide, "dtype": "float64", "batch": rng.choice(batches)})
+            if n <= 12:
+                specs.append({"fam": "big", "solver": solver, "kind": "tallscaled", "n": n, "m": n + rng.randint(1, 6), "dtype": "float64",
+                              "kexp": 13, "batch": [1]})
+                specs.append({"fam": "big", "solver": solver, "kind": "tallscaled", "n": n, "m": n + rng.randint(1, 6), "dtype": "float32",
+                              "kexp": 5, "batch": [1]})
             m_def = rng.randint(max(2, n - 3), min(40, n + 3))
             specs.append({"fam": "big", "solver": solver, "kind": "rankdef", "n": n, "m": m_def,
                           "rank": rng.randint(1, min(3, n - 1, m_def - 1)), "dtype": "float64", "batch": rng.choice(batches)})
